@@ -24,6 +24,9 @@ type Harness struct {
 	Name     string
 	Run      func(r *Run)
 	NoBubble bool
+	// HashInsensitive: replay is judged by the violation key only. For harnesses whose code under test iterates Go
+	// maps (graph construction): the oracle is order-independent but the event log is not byte-stable.
+	HashInsensitive bool
 	// StepTimeout overrides the watchdog limit (real seconds without a Beat).
 	StepTimeout time.Duration
 	// Real / Stub component lists, copied to the evidence.
@@ -350,7 +353,7 @@ func mainReplay(t *testing.T, h Harness, out string) {
 	switch {
 	case rf.Violation == nil && got == nil:
 		wo.Status = "replay-ok"
-	case rf.Violation != nil && got != nil && got.Key() == rf.Violation.Key() && (rf.LogHash == "" || rf.LogHash == r.LogHash()):
+	case rf.Violation != nil && got != nil && got.Key() == rf.Violation.Key() && (rf.LogHash == "" || rf.LogHash == r.LogHash() || h.HashInsensitive):
 		wo.Status = "replay-ok"
 	case rf.Violation != nil && got != nil && got.Key() == rf.Violation.Key():
 		wo.Status = "replay-mismatch"
